@@ -77,4 +77,35 @@ Fixpoint hist_pre (fail_at : option N) (st : state2) (ops : list op2) : Prop :=
   | o :: rest => pre_op fail_at st o /\ hist_pre fail_at (snd (step2 fail_at st o)) rest
   end.
 
+(** ** boolean twins of the preconditions (applied to implementation observations) *)
+Definition okdb (n : N) (s : store) (d : N) : bool := negb (d =? 0) && (d <? n) && negb (unused s d).
+
+Definition pre_callb (n : N) (s : store) (c : call2) : bool :=
+  match c with
+  | Link1 l r | Sew1 l r => okdb n s l && okdb n s r
+  | Link2 l r | Sew2 l r => okdb n s l && okdb n s r && negb (l =? r)
+  | Unlink1 l | Unlink2 l | Unsew1 l | Unsew2 l => okdb n s l
+  | WriteVertex _ _ | RemoveVertex _ | WriteAttr _ _ _ | RemoveAttr _ _ => true
+  | RemoveDartTx d => negb (d =? 0) && (d <? n) && is_free2 s d
+  end.
+
+Fixpoint block_preb (E : env) (n : N) (ks : kinds) (cs : list call2) (c w : store) (cnt : N) : bool :=
+  match cs with
+  | [] => true
+  | call :: rest =>
+    pre_callb n w call &&
+    match run E (call2_prog n ks call) c w cnt with
+    | (Done _, w', cnt') => block_preb E n ks rest c w' cnt'
+    | _ => true
+    end
+  end.
+
+Definition pre_opb (fail_at : option N) (st : state2) (o : op2) : bool :=
+  match o with
+  | AddDart | AddDarts _ | InsertDart => true
+  | RemoveDart d => negb (d =? 0)
+  | Force c => pre_callb (nd st) (mem st) c
+  | Block cs => block_preb (env2 st fail_at) (nd st) (aks st) cs (mem st) (mem st) 0
+  end.
+
 End Wf2.
